@@ -80,6 +80,24 @@ def inputs(ctx):
         if k % 5 == 0:
             ins.append({"id": "ro%d" % k, "k": "option", "via": rng.choice(["vtt", "force", "reader"]), "set": s,
                         "name": rng.choice(s)["lang"]})
+    # language codes that are prefixes of one another, in both orders, and names that are only a
+    # prefix of a code in the set: the option selects exactly the named language
+    def cu(base):
+        return [{"t": base, "e": base + 400, "x": base // 100 + 1}, {"t": base + 1000, "e": base + 1400, "x": base // 100 + 2}]
+    fam = [["en-US", "fr-FR", "en"], ["en", "en-US"], ["pt-BR", "pt"], ["de", "de-AT", "de-CH"], ["zh-Hans", "zh"]]
+    for codes in fam:
+        s = [{"lang": c, "cues": cu(100 * (i + 1))} for i, c in enumerate(codes)]
+        for name in codes:
+            for via in ("vtt", "force", "reader"):
+                ins.append({"id": "px%d" % n, "k": "option", "via": via, "set": s, "name": name})
+                n += 1
+        for name in sorted({c.split("-")[0] for c in codes} - set(codes)) + ["e", "xx"]:
+            ins.append({"id": "px%d" % n, "k": "option", "via": "vtt", "set": s, "name": name, "absent": True})
+            n += 1
+    for codes, name in ((["en-US"], "en"), (["fr-FR", "en-US"], "fr"), (["en-US", "fr-FR"], "fr-F")):
+        s = [{"lang": c, "cues": cu(100 * (i + 1))} for i, c in enumerate(codes)]
+        ins.append({"id": "px%d" % n, "k": "option", "via": "vtt", "set": s, "name": name, "absent": True})
+        n += 1
     # sets whose first language has no cue at all
     for k in range(40 if ctx.quick else 1500):
         t = rng.randrange(0, 3000)
@@ -188,7 +206,8 @@ def execute(inp):
         s = inp["set"]
         name = inp["name"]
         want = [{"t": q["t"], "x": q["x"]} for l in s if l["lang"] == name for q in l["cues"]]
-        rec = {"k": "option", "name": name, "want": want, "got": [], "gotlangs": [], "ok": False, "via": inp["via"]}
+        rec = {"k": "option", "name": name, "want": want, "got": [], "gotlangs": [], "ok": False, "via": inp["via"],
+               "absent": bool(inp.get("absent"))}
         try:
             cs = _mk(s)
             if inp["via"] == "vtt":
